@@ -51,6 +51,11 @@ def single_param_groups(seed, n):
         ("Clone", "field", [("method", "path", "::verif_rt::clone_alt")]),
         ("Default", "field", [("expression", "expr", "::verif_rt::T::mk(7, 0, 1)")]),
         ("Default", "field", [("expression", "expr", "1 + 2")]),
+        ("Default", "field", [("expression", "expr", "-1")]),
+        ("Default", "field", [("expression", "expr", "-2.5")]),
+        ("Default", "field", [("expression", "expr", "7u8")]),
+        ("Default", "field", [("expression", "expr", "\"text\"")]),
+        ("Default", "field", [("expression", "expr", "-(3)")]),
         ("Debug", "type", [("name", "identbool", "Other")]),
         ("Debug", "type", [("name", "identbool", False)]),
         ("Debug", "type", [("named_field", "bool", False)]),
